@@ -1,7 +1,9 @@
 """C03 write permission: theorems in coq/Props/PropC03.v; correspondence and monitor through the C03
 driver (harness/overlay/server/zz_verif_c03x_test.go = the topic-history driver plus topic deletion in
 two halves, user suspension, me/fnd/sys with subscribers, real peer-to-peer topics) and the extracted model
-coq/Sys/TopicLife.v over Sys/Topic.v."""
+coq/Sys/TopicLife.v over Sys/Topic.v, wrapped once more by coq/Sys/TopicOffSetC03.v (s03c): the complete
+not-attached {set} (desc.private + sub.mode in one request, ops osetx / p2posetx), root sessions acting on behalf of
+another user (sess n u r, kind@obo) and the eviction of the sessions attached on behalf of a banned user."""
 import os
 import re
 import subprocess
@@ -10,7 +12,54 @@ from props import statelib
 from props import topiclib as T
 from props.statelib import kvs, eff
 
-PUB_KINDS = ("pub", "pubme", "pubfnd", "pubsys", "p2ppub")
+PUB_KINDS = ("pub", "pubme", "pubfnd", "pubsys", "p2ppub", "osetx", "p2posetx")
+
+
+class OpSetC03(set):
+    """op kinds of the compared frame projection; `kind@obo` (request with extra.obo) counts as `kind`"""
+    def __contains__(self, k):
+        return set.__contains__(self, str(k).split("@")[0])
+
+
+def split_kind(kind):
+    if "@" in kind:
+        a, b = kind.split("@", 1)
+        return a, b
+    return kind, None
+
+
+def roots_of(sc):
+    return set(int(h.split()[1]) for h in sc.head if h.startswith("sess ") and len(h.split()) > 3 and h.split()[3] == "r")
+
+
+def acting_user(sc, roots, sid, obo):
+    """Session.dispatch: the user a request is executed as (msg.AsUser); None = refused by the dispatcher"""
+    if obo is None:
+        return sc.sessions.get(sid)
+    if sid not in roots or obo in ("x", "0"):
+        return None
+    return int(obo)
+
+
+def parse_mode(m):
+    """types.ParseAcs on a non-empty string: set of letters, or None = error"""
+    bits, unset = set(), True
+    for ch in m:
+        c = ch.upper()
+        if c in "JRWPASDO" and ch in "JRWPASDOjrwpasdo":
+            bits.add(c)
+            unset = False
+        elif ch in "Nn":
+            if not unset:
+                return None
+            return set()
+        else:
+            return None
+    return bits
+
+
+def mode_text(bits):
+    return "".join(c for c in "JRWPASDO" if c in bits) or "N"
 # known findings (KNOWN_FINDINGS.txt, findings/C03.md): reported through ctx.violation with these keys
 KNOWN = ("stale-cache-offline-setsub", "stale-cache-transfer-fault", "suspended-owner-accepted-after-reload",
          "suspended-party-accepted-after-reload", "suspended-party-accepted-after-peer-resumed")
@@ -345,6 +394,238 @@ def gen_life(rng, sc, nops):
     return sc
 
 
+PRIVS = ["-", "-", "L7", "M1:5", "M1:5,2:6", "M1:d", "M2:d,1:9", "M3:n", "M", "L0", "M1:7,3:n"]
+JUNK_MODES_C03 = ["+W", "JX", "JN", "J R", "?"]
+
+
+def gen_offset(rng, sc, nops):
+    """{set} from sessions that are NOT attached, carrying every combination of desc.private (absent / not a map /
+    map that changes something / map that changes nothing) and sub.mode (absent / valid without W / valid with W /
+    junk / O-bit mismatch), with Fail/Crash on both store calls, to the group topic and to a peer-to-peer topic;
+    then the topic is (re)loaded or not, the user attaches and publishes."""
+    users = list(range(1, sc.nusers + 1))
+    head = [h for h in sc.head if not h.startswith("subrow ") and not h.startswith("sess ")]
+    sess = [h for h in sc.head if h.startswith("sess ")]
+    members = []
+    for u in users[1:]:
+        if len(members) < 3 and rng.random() < 0.85:
+            members.append(u)
+            head.append("subrow %d want=%d given=%d" % (u, rng.choice([47, 47, 47, 63, 15, 11, 43, 3, 175 - 128]),
+                                                        rng.choice([47, 47, 47, 63, 43, 3, 127, 175])))
+    a = rng.choice(members or [1])
+    b = rng.choice([u for u in users if u != a])
+    pa, pb = min(a, b), max(a, b)
+    head.append("p2prow 1 %d %d wa=%d ga=%d wb=%d gb=%d" % (pa, pb, rng.choice([31, 31, 27, 23]), rng.choice([31, 31, 27]),
+                                                            rng.choice([31, 31, 27, 19]), rng.choice([31, 31, 27])))
+    sc.head = head + sess
+    sids = sorted(sc.sessions)
+    ops = []
+    maybe = set()       # sessions that may be attached to the group topic
+    pmaybe = set()      # sessions that may be attached to the p2p topic
+    cnt = [300]
+
+    def detached(u):
+        cand = [s for s in sessions_of(sc, u) if s not in maybe]
+        if cand:
+            return rng.choice(cand)
+        s = rng.choice(sessions_of(sc, u))
+        ops.append(("N", "leave", [s, 0]))
+        maybe.discard(s)
+        return s
+
+    def crashed():
+        maybe.clear()
+        pmaybe.clear()
+
+    # some sessions attach first (the topic is loaded: the not-attached {set} leaves its cache stale - known finding)
+    if rng.random() < 0.5:
+        for s in sids:
+            if rng.random() < 0.5:
+                ops.append(("N", "sub", [s, "-", 0]))
+                maybe.add(s)
+    for _ in range(nops):
+        r = rng.random()
+        u = rng.choice((members or [1]) * 4 + users)
+        mk = rng.random()
+        if mk < 0.12:
+            m = ""
+        elif mk < 0.50:
+            m = rng.choice(NOW_MODES)
+        elif mk < 0.78:
+            m = rng.choice(W_MODES)
+        elif mk < 0.88:
+            m = rng.choice(JUNK_MODES_C03)
+        else:
+            m = rng.choice(O_MODES)
+        if u == 1 and m and rng.random() < 0.8 and "O" not in m and parse_mode(m) is not None and m != "N":
+            m += "O"
+        priv = rng.choice(PRIVS)
+        flt = rand_fault(rng, 0.22, ks=(1, 2, 2, 3), kinds=("F", "F", "C"))
+        if r < 0.22 and u in (pa, pb):
+            cand = [s for s in sessions_of(sc, u) if s not in pmaybe]
+            if cand:
+                s = rng.choice(cand)
+                ops.append((flt, "p2posetx", [s, 1, hx(m), priv]))
+                if flt[0] == "C":
+                    crashed()
+                for s2 in sessions_of(sc, u)[:1]:
+                    ops.append(("N", "p2psub", [s2, 1]))
+                    pmaybe.add(s2)
+                    cnt[0] += 1
+                    ops.append(("N", "p2ppub", [s2, 1, cnt[0], 0]))
+                    if rng.random() < 0.6:
+                        ops.append(("N", "p2pleave", [s2, 1]))
+                        pmaybe.discard(s2)
+                        ops.append(("N", "p2punload", [1]))
+                continue
+        s = detached(u)
+        tgt = 0 if rng.random() < 0.8 else rng.choice([u, u, rng.choice(users)])
+        ops.append((flt, "osetx", [s, tgt, hx(m), priv]))
+        if flt[0] == "C":
+            crashed()
+        t = rng.random()
+        if t < 0.45:
+            ops.append(("N", "restart", []))
+            crashed()
+        elif t < 0.65:
+            for s2 in sorted(maybe):
+                ops.append(("N", "leave", [s2, 0]))
+            maybe.clear()
+            ops.append(("N", "unload", []))
+        for s2 in sessions_of(sc, u):
+            if rng.random() < 0.8:
+                ops.append(("N", "sub", [s2, "-", 0]))
+                maybe.add(s2)
+                cnt[0] += 1
+                ops.append(("N" if rng.random() < 0.9 else rand_fault(rng, 1.0), "pub", [s2, cnt[0], 0]))
+                if ops[-1][0][0] == "C":
+                    crashed()
+        if rng.random() < 0.3:
+            s3 = rng.choice(sids)
+            cnt[0] += 1
+            ops.append(("N", "pub", [s3, cnt[0], 0]))
+    sc.ops = ops
+    return sc
+
+
+BAN_MODES = ["RWP", "RWPS", "RW", "RWPAS", "N", "RP", "WP"]      # given without J (most keep W)
+
+
+def gen_obo(rng, sc, nops):
+    """ROOT sessions attached to the group topic ON BEHALF of a member (extra.obo) and publishing on behalf of
+    members, strangers, write-less and banned users; the acted-for user is then banned (given loses J, mostly
+    keeping W), removed ({del sub}), unsubscribes, bans himself (want loses J) or loses W; publishes again."""
+    users = list(range(1, sc.nusers + 1))
+    head = [h for h in sc.head if not h.startswith("subrow ") and not h.startswith("sess ")]
+    members = []
+    for u in users[1:]:
+        if len(members) < 3 and (not members or rng.random() < 0.8):
+            members.append(u)
+            head.append("subrow %d want=%d given=%d" % (u, rng.choice([47, 47, 47, 63, 15, 11]), rng.choice([47, 47, 47, 63, 43])))
+    if not members:
+        members = [1]
+    sc.sessions = {}
+    s = 0
+    sess = []
+    for u in users:
+        for _ in range(rng.choice([1, 1, 2])):
+            s += 1
+            sc.sessions[s] = u
+            sess.append("sess %d %d" % (s, u))
+    roots = []
+    for _ in range(rng.choice([1, 1, 2])):
+        s += 1
+        ru = rng.choice([1, users[-1], rng.choice(users)])
+        sc.sessions[s] = ru
+        roots.append(s)
+        sess.append("sess %d %d r" % (s, ru))
+    sc.head = head + sess
+    plain = [x for x in sorted(sc.sessions) if x not in roots]
+    owner_s = [x for x in plain if sc.sessions[x] == 1]
+    ops = []
+    ras = {}           # root session -> user it is believed attached as
+    cnt = [400]
+
+    def root_attach(r, u):
+        if r in ras:
+            ops.append(("N", "leave@%d" % ras[r], [r, 0]))
+            del ras[r]
+        ops.append(("N", "sub@%d" % u, [r, "-", 0]))
+        ras[r] = u
+
+    def pub(x, obo=None):
+        cnt[0] += 1
+        ops.append(("N", "pub" if obo is None else "pub@%s" % obo, [x, cnt[0], 1 if rng.random() < 0.1 else 0]))
+
+    def everybody():
+        for x in plain:
+            if rng.random() < 0.85:
+                ops.append(("N", "sub", [x, "-", 0]))
+        for r in roots:
+            root_attach(r, rng.choice(members * 3 + users))
+
+    everybody()
+    for _ in range(nops):
+        r = rng.choice(roots)
+        v = ras.get(r) if rng.random() < 0.8 and ras.get(r) is not None else rng.choice(members)
+        pub(r, v)
+        t = rng.random()
+        flt = "N" if rng.random() < 0.85 else rng.choice(["F1", "F1", "C1", "F2"])
+        if t < 0.40:
+            # the owner bans v: the granted mode loses J (and mostly keeps W)
+            ops.append((flt, "setsub", [rng.choice(owner_s * 4 + plain), v, hx(rng.choice(BAN_MODES))]))
+        elif t < 0.52:
+            ops.append((flt, "delsub", [rng.choice(owner_s * 4 + plain), v]))
+        elif t < 0.62:
+            own = sessions_of(sc, v)
+            own = [x for x in own if x not in roots]
+            if own and v != 1:
+                ops.append((flt, "leave", [rng.choice(own), 1]))
+            else:
+                ops.append((flt, "delsub", [rng.choice(owner_s or plain), v]))
+        elif t < 0.74:
+            own = [x for x in sessions_of(sc, v) if x not in roots]
+            if own and v != 1:
+                ops.append((flt, "setsub", [rng.choice(own), 0, hx(rng.choice(["RWP", "RWPS", "N", "JRP"]))]))
+            else:
+                ops.append((flt, "setsub", [rng.choice(owner_s or plain), v, hx("JRP")]))
+        elif t < 0.84:
+            # W taken away, J kept
+            ops.append((flt, "setsub", [rng.choice(owner_s * 4 + plain), v, hx(rng.choice(["JRP", "JRPS", "JR"]))]))
+        elif t < 0.90:
+            # an ordinary session naming a user: refused by the dispatcher
+            pub(rng.choice(plain), rng.choice(users))
+            pub(r, rng.choice(["x", "0"]))
+        elif t < 0.95:
+            ops.append(("N", "restart", []))
+            ras.clear()
+            everybody()
+        else:
+            root_attach(r, rng.choice(members + users))
+        if flt[0] == "C":
+            ras.clear()
+            everybody()
+        # afterwards: on behalf of the same user through every root session, his own sessions, somebody else
+        for r2 in roots:
+            pub(r2, v)
+        for x in sessions_of(sc, v):
+            if x not in roots and rng.random() < 0.7:
+                pub(x)
+        if rng.random() < 0.5:
+            pub(rng.choice(roots), rng.choice(users))
+        if rng.random() < 0.3:
+            pub(rng.choice(roots))
+        if rng.random() < 0.35:
+            # the owner lets him back in; the root session comes back on his behalf
+            ops.append(("N", "setsub", [rng.choice(owner_s or plain), v, hx(rng.choice(["JRWPS", "JRWP"]))]))
+            for x in sessions_of(sc, v):
+                if x not in roots:
+                    ops.append(("N", "sub", [x, hx("JRWPS") if rng.random() < 0.5 else "-", 0]))
+            root_attach(rng.choice(roots), v)
+    sc.ops = ops
+    return sc
+
+
 _orig_gen_scenarios = T.gen_scenarios
 
 
@@ -356,6 +637,10 @@ def gen_scenarios(ctx, count, profile, faults=0.0, nops=(6, 22), prefix="g"):
         sc = T.gen_setup(ctx.rng, "%s%d" % (prefix, i), "msg" if profile == "life" else "perm")
         if profile == "permfault":
             gen_permfault(ctx.rng, sc, ctx.rng.randint(2, 6))
+        elif profile == "offset":
+            gen_offset(ctx.rng, sc, ctx.rng.randint(2, 5))
+        elif profile == "obo":
+            gen_obo(ctx.rng, sc, ctx.rng.randint(2, 4))
         else:
             gen_life(ctx.rng, sc, ctx.rng.randint(2, 5))
         res.append(sc)
@@ -406,9 +691,22 @@ class X:
         self.sysro = False
         self.syssubs, self.mefndro = set(), set()
         self.p2p = {}       # k -> dict(loaded, ro, seqid, lastid, users {u: (want, given)}, sess set, msgs {seq: (from, content)})
+        self.priv = {}      # user -> stored Private of his row on the group topic (canonical text)
+        self.p2prows = {}   # k -> {user: (want, given, private, deleted)}: the STORED rows of the k-th p2p topic
         for l in v.b["store"]:
             w = l.split()
-            if w[0] == "xstatus":
+            if w[0] == "priv":
+                self.priv[int(w[1])] = w[2]
+            elif w[0] == "p2prows":
+                rows = {}
+                for e in (w[2].split(",") if len(w) > 2 else []):
+                    f = e.split(":", 2)
+                    m = f[1].split("/")
+                    pv = f[2] if len(f) > 2 else ""
+                    dele = pv.endswith(":deleted")
+                    rows[int(f[0])] = (m[0], m[1], pv[:-8] if dele else pv, dele)
+                self.p2prows[int(w[1])] = rows
+            elif w[0] == "xstatus":
                 d = kvs(l)
                 self.paused, self.ro, self.window = d["paused"] == "1", d["ro"] == "1", d.get("window") == "1"
             elif w[0] in ("susp", "me", "fnd"):
@@ -454,13 +752,17 @@ def monitor(sc, views, known_hit=None):
     div = {}            # user -> name of the known stale-cache trigger that hit him since the topic was loaded
     ro_lost = False     # the owner is suspended and the topic was (re)loaded since: the read-only bit is gone (known finding)
     rows = p2p_rows(sc)
+    roots = roots_of(sc)
     p_lost = {}         # p2p topic -> why it is writable although a party is suspended ("reload" | "peer"): known findings
     win_fault = "N"     # fault plan of the held {del topic}: a request other than {pub} to the group topic first lets it finish
     for k, v in enumerate(views):
-        fault, kind, args = sc.ops[k]
+        fault, kind0, args = sc.ops[k]
+        kind, obo = split_kind(kind0)
         x = X(v)
         sid = args[0] if args and kind not in ("suspend", "p2punload") else None
-        actor = sc.sessions.get(sid) if sid is not None else None
+        # the user the request is executed as (msg.AsUser): the session's own user, or - for a root session - the
+        # user named by extra.obo; None = the dispatcher refuses the request (403 / 400)
+        actor = acting_user(sc, roots, sid, obo) if sid is not None else None
         mine = [t for s, t in v.frames if s == sid and t.startswith("ctrl ")] if sid is not None else []
         acked = bool(mine) and mine[0].startswith("ctrl 202")
         if kind == "delbegin":
@@ -502,8 +804,9 @@ def monitor(sc, views, known_hit=None):
             stale = None
             if actor in div and prev.loaded and modes(row) != ((crow["want"], crow["given"]) if crow else None):
                 stale = div[actor]
-            desc = "session %d (user %s): attached=%s stored mode %s cached mode %s delete-in-flight=%s paused=%s read-only=%s" % (
-                sid, actor, attached, "/".join(modes(row)) if modes(row) else None,
+            desc = "session %d (%s, acting as user %s): attached=%s as user %s, stored mode %s cached mode %s delete-in-flight=%s paused=%s read-only=%s" % (
+                sid, ("root session of user %s" if sid in roots else "own session of user %s") % sc.sessions.get(sid), actor, attached,
+                prev.csess.get(sid) if prev.loaded else None, "/".join(modes(row)) if modes(row) else None,
                 (crow["want"] + "/" + crow["given"]) if crow else None, px.window, px.paused, px.ro)
             if acked and px.window:
                 res.append(("publish-accepted-while-being-deleted", k, "publish accepted while the topic is being deleted; " + desc))
@@ -535,6 +838,8 @@ def monitor(sc, views, known_hit=None):
             kk = args[1]
             p, q = px.p2p[kk], x.p2p[kk]
             want, given = rows[kk][2][actor]
+            if kk in px.p2prows and actor in px.p2prows[kk]:
+                want, given = px.p2prows[kk][actor][:2]       # the STORED row (a not-attached {set} may have changed it)
             if crashed_first:
                 p = dict(p, loaded=False, ro=False, sess=set(), users={}, lastid=p["seqid"])
             attached = p["loaded"] and sid in p["sess"]
@@ -581,6 +886,72 @@ def monitor(sc, views, known_hit=None):
                     res.append(("rejected-no-effect", k, "rejected publish to sys stored something or consumed a number"))
                 if [t for s, t in v.frames if not (s == sid and t.startswith("ctrl "))]:
                     res.append(("rejected-no-effect", k, "rejected publish to sys produced frames"))
+        # a {set} from a session that is NOT attached (replyOfflineTopicSetSub): an acknowledged request carrying
+        # sub.mode = m has stored exactly the sanitised m as the user's requested mode, whatever else the request
+        # carries (desc.private); a refused one (error reply) leaves the row as it was
+        if prev is not None and kind in ("osetx", "p2posetx") and actor is not None and fault[0] != "C":
+            if kind == "osetx":
+                tgt, mhex, priv = args[1], args[2], args[3]
+                att = px.window is False and prev.loaded and sid in prev.csess
+                before = (lambda r: None if r is None or r.get("deleted") else (r["want"], r["given"], px.priv.get(actor, "")))(prev.subs.get(actor))
+                after = (lambda r: None if r is None or r.get("deleted") else (r["want"], r["given"], x.priv.get(actor, "")))(v.subs.get(actor))
+                addressed = not px.window
+                p2p = False
+            else:
+                kk, mhex, priv = args[1], args[2], args[3]
+                tgt = 0
+                pr, qr = px.p2prows.get(kk, {}).get(actor), x.p2prows.get(kk, {}).get(actor)
+                att = kk in px.p2p and px.p2p[kk]["loaded"] and sid in px.p2p[kk]["sess"]
+                before = None if pr is None or pr[3] else pr[:3]
+                after = None if qr is None or qr[3] else qr[:3]
+                addressed = pr is not None and not px.window
+                p2p = True
+            m = unhex(mhex)
+            if addressed and not att and not crashed_first:
+                code = int(mine[0].split()[1]) if mine else None
+                what = "{set} by session %d (user %s, not attached) to the %s with sub.mode=%r desc.private=%s sub.user=%s" % (
+                    sid, actor, "p2p topic %d" % args[1] if p2p else "group topic", m, priv, tgt)
+                if len(mine) != 1 or [t for s_, t in v.frames if s_ != sid]:
+                    res.append(("offline-set-one-reply", k, "%s: frames %s, exactly one reply to the sender expected" % (what, v.frames)))
+                elif code < 400 and m and before is not None:
+                    bits = parse_mode(m)
+                    if bits is None or tgt not in (0, actor) or ("O" in bits) != ("O" in before[0]):
+                        res.append(("offline-set-ack-stores-want", k, "%s acknowledged (%s) although the request must be refused (stored row %s)" % (what, mine[0], before)))
+                    else:
+                        if p2p:
+                            bits = (bits & set("JRWPA")) | {"A"}
+                        exp = mode_text(bits)
+                        if after is None or after[0] != exp or after[1] != before[1]:
+                            res.append(("offline-set-ack-stores-want", k, "%s acknowledged (%s): stored mode before %s, after %s; the stored requested mode must be %s and the granted mode unchanged"
+                                        % (what, mine[0], "/".join(before[:2]), "/".join(after[:2]) if after else None, exp)))
+                        if code == 200 and "acs=" in mine[0] and after is not None and kvs(mine[0]).get("acs") != after[0] + "/" + after[1]:
+                            res.append(("offline-set-ack-stores-want", k, "%s: the reply reports %s, the stored row is %s" % (what, mine[0], "/".join(after[:2]))))
+                elif code >= 400 and fault == "N" and after != before:
+                    res.append(("offline-set-rejected-no-effect", k, "%s refused (%s) but the stored row changed from %s to %s" % (what, mine[0], before, after)))
+        # evictUser: an acknowledged request that bans a user (the granted or the requested mode loses J), removes his
+        # subscription or unsubscribes him detaches EVERY session attached on his behalf - whoever owns the session
+        # (a root session attached with extra.obo included)
+        if prev is not None and prev.loaded and v.loaded and fault[0] != "C" and not px.window and not x.window and mine \
+                and mine[0].startswith("ctrl 200") and actor is not None and sid in prev.csess:
+            gone = None
+            if kind == "setsub":
+                tgt = args[1] if args[1] not in (0, actor) else actor
+                r = v.subs.get(tgt)
+                if r is not None and not r.get("deleted"):
+                    if tgt != actor and "J" not in r["given"]:
+                        gone = (tgt, "banned: granted mode %s" % r["given"])
+                    elif tgt == actor and "J" not in r["want"]:
+                        gone = (tgt, "left by dropping J from the requested mode %s" % r["want"])
+            elif kind == "delsub":
+                gone = (args[1], "subscription deleted by {del sub}")
+            elif kind == "leave" and args[1] == 1:
+                gone = (actor, "unsubscribed by {leave unsub}")
+            if gone is not None:
+                left = sorted(s_ for s_, u_ in v.csess.items() if u_ == gone[0])
+                if left:
+                    res.append(("banned-user-session-still-attached", k, "user %s %s by request %s of session %d, but sessions %s are still attached to the topic on his behalf (%s)"
+                                % (gone[0], gone[1], kind0, sid, left,
+                                   ", ".join("session %d = %s session of user %s" % (s_, "root" if s_ in roots else "own", sc.sessions.get(s_)) for s_ in left))))
         # the read-only bit of every loaded topic follows the suspensions, per topic category: an accepted change of
         # the state of account u marks the group topic iff u is its owner (not if u is only a member), a p2p topic iff
         # u is one of its parties, never 'sys' (whoever subscribes to it), never me/fnd; nothing else sets the bit
@@ -616,12 +987,12 @@ def monitor(sc, views, known_hit=None):
             if not v.loaded or not prev.loaded:
                 div.clear()
             else:
-                self_req = (kind == "sub") or (kind == "setsub" and args[1] in (0, actor))
-                if kind == "setsub" and self_req and sid not in prev.csess:
+                self_req = (kind == "sub") or (kind in ("setsub", "osetx") and args[1] in (0, actor))
+                if kind in ("setsub", "osetx") and self_req and sid not in prev.csess:
                     if modes(v.subs.get(actor)) != modes(v.cusers.get(actor)):
                         div[actor] = "offline-setsub"
                 pc = prev.cusers.get(actor)
-                if fault != "N" and kind in ("sub", "setsub") and self_req and "O" in unhex(args[1] if kind == "sub" else args[2]) \
+                if fault != "N" and kind in ("sub", "setsub", "osetx") and self_req and "O" in unhex(args[1] if kind == "sub" else args[2]) \
                         and pc is not None and "O" in pc["given"] and "O" not in pc["want"]:
                     # a faulted acceptance of a pending ownership transfer (thisUserSub, ownerChange branch)
                     for u in (actor, prev.cache.get("owner")):
@@ -711,14 +1082,16 @@ def run(ctx):
                           {"head": sc.head, "ops": sc.ops[:k + 1], "law": law, "detail": detail})
 
     statelib.run_stateful(
-        ctx, [("msg", 0.0, 0.17), ("perm", 0.0, 0.17), ("perm", 0.1, 0.1), ("permfault", 0.0, 0.28), ("life", 0.0, 0.28)],
+        ctx, [("msg", 0.0, 0.149), ("perm", 0.0, 0.149), ("perm", 0.1, 0.088), ("permfault", 0.0, 0.246), ("life", 0.0, 0.246),
+              ("offset", 0.0, 0.068), ("obo", 0.0, 0.054)],
         lambda sc, views: monitor(sc, views, known_hit),
-        dict(ops=set(PUB_KINDS), frame=frame_f, line=line_f, keys=("frames", "store", "cache")),
-        rule="seeded random histories over one group topic plus me/fnd/sys: authors = owner, members, muted, write-less (want or given without W), banned, removed, never subscribed; publishes preceded by subscribe/set-sub/del-sub/leave histories (arbitrary mode strings) with Fail k / Crash k at every adapter-call position of the permission requests, unload/restart; the owner's {del topic} held open inside store.Topics.Delete (memverif call hook) with publishes dispatched meanwhile; suspension/resumption (with Fail/Crash on its store calls) of accounts that are at once a plain member of the group topic, a party of one or two real peer-to-peer topics (assorted modes, with and without W) and a subscriber of sys, or the owner, or a bystander, followed by publishes to the group topic, the p2p topics and sys; reloads after a suspension, both parties suspended and one resumed; publishes to me/fnd (attached or not) and sys (never attached; with and without subscribers); non-trivial = at least one accepted mutating request",
+        dict(ops=OpSetC03(PUB_KINDS), frame=frame_f, line=line_f, keys=("frames", "store", "cache")),
+        rule="seeded random histories over one group topic plus me/fnd/sys: authors = owner, members, muted, write-less (want or given without W), banned, removed, never subscribed; publishes preceded by subscribe/set-sub/del-sub/leave histories (arbitrary mode strings) with Fail k / Crash k at every adapter-call position of the permission requests, unload/restart; the owner's {del topic} held open inside store.Topics.Delete (memverif call hook) with publishes dispatched meanwhile; suspension/resumption (with Fail/Crash on its store calls) of accounts that are at once a plain member of the group topic, a party of one or two real peer-to-peer topics (assorted modes, with and without W) and a subscriber of sys, or the owner, or a bystander, followed by publishes to the group topic, the p2p topics and sys; reloads after a suspension, both parties suspended and one resumed; publishes to me/fnd (attached or not) and sys (never attached; with and without subscribers); profile offset: {set} from sessions that are NOT attached with every combination of desc.private {absent, number, map setting / deleting keys, map of nulls, empty map} x sub.mode {absent, valid without W, valid with W, junk, O-bit mismatch} x sub.user {absent, self, somebody else}, Fail/Crash on Subs.Get and Subs.Update, to the group topic and to a peer-to-peer topic, followed by restart / idle unload / nothing, attach and publish; profile obo: one or two ROOT sessions attached with extra.obo on behalf of members and strangers, publishing on behalf of the acted-for user and of others before and after he is banned (granted mode without J, mostly keeping W), removed by {del sub}, unsubscribes, drops J or W himself, with faults on the permission request, restarts, extra.obo from ordinary sessions and malformed; non-trivial = at least one accepted mutating request",
         trusted=["projection compared for C03: every frame of a publish request (group topic, me, fnd, sys), the stored rows and the cached modes/lastID after every request, the paused/read-only bits of the loaded group topic, of every p2p topic, of sys and of every loaded me/fnd topic, cached modes / attached sessions / seqid / lastID / messages of every p2p topic, the suspended accounts, me/fnd attachments, seqid/lastID/messages/subscribers of sys",
                  "read-only-follows-suspension takes the account states from the users table and the membership from the topic's cached perUser before the request; the read-only bit itself is read from Topic.status at quiescence",
                  "p2p topics are created with both subscription rows by store.Topics.CreateP2P at set-up (initTopicP2P case 4); the subscribers of sys are rows created at set-up followed by a reload of sys; both are removed / unloaded at the end of the scenario",
                  "the monitor takes the STORED subscription row as the definition of 'currently subscribed with W in both modes'; a failure of the iff is filed under a known finding only if the author's cached mode differs from the stored one AND one of the two named triggers hit that user since the topic was loaded (not-attached {set sub} of his own; faulted ownership-transfer request)",
                  "harness/overlay/server/zz_verif_c03x_test.go: the {del topic} of the owner is held inside adapter.TopicDelete by a memverif call hook (db/memverif/zz_hook.go) while publishes are dispatched and awaited; {acc status=susp} is sent by a root session; the driver's sessions are not in the session store, so suspension does not evict them (eviction on suspension and login refusal are C11's)",
+                 "s03c: harness/overlay/server/zz_verif_c03oz_test.go sends {set} with desc.private and sub in one JSON request, creates root sessions (authLvl put back after a restart at quiescence) and sends kind@obo requests through zz_verif_c04x_test.go's c04xOp (reused unchanged); the stored Private of every row and the stored rows of the p2p topics are read through memverif.DumpTopicDesc; the acting user of a request (tools/props/c03.py acting_user) is a python restatement of dispatch_as_c04; the law offline-set-ack-stores-want parses the mode with a python restatement of types.ParseAcs (letters JRWPASDO, N alone)",
                  "topic deletion is modelled for hub.topicUnreg case 1.1.1 only (owner, topic loaded, hard); other {del topic} requests are not issued"],
-        counts={"quick": 560, "thorough": 5000}, extra_cov=extra_cov)
+        counts={"quick": 640, "thorough": 5600}, extra_cov=extra_cov)
